@@ -264,7 +264,7 @@ func init() {
 			}
 			return fw.Plan{
 				Level: "exploration",
-				Rule: "programs that never terminate by construction: a core (spinning: every loop form, for-in nested in a loop, unbounded recursion through 0/1/3/6-parameter, variadic and mutually recursive functions, tick-less loops; blocked: receive expression/statement with and without ok, send on unbuffered and full channels, range over an open channel, forwarding) under 0-3 wrappers (script function of arity 0/1/4/6/variadic/spread call, anonymous/member/module call, module body, go + blocked parent, try/catch/finally bodies, either side of ??, ternary arm, call argument, deferred callee (after return / after error / top level), switch, if/else, for-in, callbacks handed to Go func types with and without an error result), last or followed by further statements. phase contended = a script consuming a buffered channel (range / receive statement / receive with ok, at top level or in a function) while host goroutines take values from the same channel and a host producer feeds it; when the feed has stopped and the buffer is empty the context is cancelled (150 trials per case; only the last values fed matter, so feeds are short; channel capacity, number of competing consumers and feed length from the PRNG). Cancellation instant: synchronous (the k-th probe cancels, k swept) or asynchronous (a harness goroutine cancels after 0-3 ms at GOMAXPROCS 1/2/16). phase enum = every core x every single wrapper x both positions (complete); phase random = PRNG wrapper chains of length 0-3. Non-trivial = the program was running (>= 1 probe event or a blocked core) when the cancel landed; distinct = (program, mode, k).",
+				Rule:  "programs that never terminate by construction: a core (spinning: every loop form, for-in nested in a loop, unbounded recursion through 0/1/3/6-parameter, variadic and mutually recursive functions, tick-less loops; blocked: receive expression/statement with and without ok, send on unbuffered and full channels, range over an open channel, forwarding) under 0-3 wrappers (script function of arity 0/1/4/6/variadic/spread call, anonymous/member/module call, module body, go + blocked parent, try/catch/finally bodies, either side of ??, ternary arm, call argument, deferred callee (after return / after error / top level), switch, if/else, for-in, callbacks handed to Go func types with and without an error result), last or followed by further statements. phase contended = a script consuming a buffered channel (range / receive statement / receive with ok, at top level or in a function) while host goroutines take values from the same channel and a host producer feeds it; when the feed has stopped and the buffer is empty the context is cancelled (150 trials per case; only the last values fed matter, so feeds are short; channel capacity, number of competing consumers and feed length from the PRNG). Cancellation instant: synchronous (the k-th probe cancels, k swept) or asynchronous (a harness goroutine cancels after 0-3 ms at GOMAXPROCS 1/2/16). phase enum = every core x every single wrapper x both positions (complete); phase random = PRNG wrapper chains of length 0-3. Non-trivial = the program was running (>= 1 probe event or a blocked core) when the cancel landed; distinct = (program, mode, k).",
 				Assumptions: []string{"the error must carry the text \"execution interrupted\" (vm.ErrInterrupt or a *vm.Error wrapping it)",
 					"after cancel() returned, at most 2*(ticks per cycle)+goroutines+2 further probe events are tolerated (the expression in progress may finish)",
 					"a call that has not returned is judged from two goroutine-state samples and the process CPU time consumed since the cancel; a wall-clock expiry alone is inconclusive",
